@@ -3,43 +3,62 @@ import HavocVerif.Model.Payload
   Model of the per-agent job queue: `AddJobToQueue`/`AddRequest`,
   `GetQueuedJobs`, the job / no-job decision of `handleDemonAgent`, and
   `UploadMemFileInChunks` (teamserver/pkg/agent/{agent,demons}.go, handlers.go).
+  The queue functions are generic in the job type: only the size accounting of
+  `GetQueuedJobs` looks inside a job.
 -/
 namespace Havoc
 
 def Job.queueSize (j : Job) : Nat := (j.data.map Arg.queueSize).sum
 
+section
+variable {α : Type} (size : α → Nat)
+
 /-- the counting loop of `GetQueuedJobs`: `JobsSize` accumulates over the jobs
     visited; the loop stops at the first job that makes it reach the limit. -/
-def countJobs (maxLen : Nat) : List Job → Nat → Nat → Nat
+def countJobsBy (maxLen : Nat) : List α → Nat → Nat → Nat
   | [], _, num => num
-  | j :: js, size, num =>
-    let size' := size + j.queueSize
-    if size' ≥ maxLen then num else countJobs maxLen js size' (num + 1)
+  | j :: js, sz, num =>
+    let sz' := sz + size j
+    if sz' ≥ maxLen then num else countJobsBy maxLen js sz' (num + 1)
 
-def numJobs (maxLen : Nat) (q : List Job) : Nat :=
-  let n := countJobs maxLen q 0 0
+def numJobsBy (maxLen : Nat) (q : List α) : Nat :=
+  let n := countJobsBy size maxLen q 0 0
   if q.length > 0 ∧ n = 0 then 1 else n
 
 /-- `GetQueuedJobs`: (batch handed out, queue left) -/
-def getQueued (maxLen : Nat) (q : List Job) : List Job × List Job :=
-  (q.take (numJobs maxLen q), q.drop (numJobs maxLen q))
+def getQueuedBy (maxLen : Nat) (q : List α) : List α × List α :=
+  (q.take (numJobsBy size maxLen q), q.drop (numJobsBy size maxLen q))
+end
 
 def maxResponse : Nat := Gen.Consts.DEMON_MAX_RESPONSE_LENGTH
 
+def getQueued (maxLen : Nat) (q : List Job) : List Job × List Job := getQueuedBy Job.queueSize maxLen q
+
 def noJob : Job := ⟨Gen.Consts.COMMAND_NOJOB, 0, []⟩
 
-/-- the reply of a check-in: (jobs put on the wire, queue left) -/
-def checkinJobs (asked : Bool) (q : List Job) : List Job × List Job :=
-  if asked = false ∨ q.length = 0 then ([noJob], q) else getQueued maxResponse q
+/-- the reply of a check-in: `none` = the single NOJOB frame, `some batch` = jobs taken off the queue -/
+def checkinBy {α : Type} (size : α → Nat) (asked : Bool) (q : List α) : Option (List α) × List α :=
+  if asked = false ∨ q.length = 0 then (none, q)
+  else let (b, r) := getQueuedBy size maxResponse q; (some b, r)
 
-/-- `UploadMemFileInChunks`: `for start := 0; start <= FileSize; start += chunkSize`.
-    `ids` supplies the random request ids (one per chunk). -/
+/-- the reply of a check-in as jobs on the wire -/
+def checkinJobs (asked : Bool) (q : List Job) : List Job × List Job :=
+  match checkinBy Job.queueSize asked q with
+  | (none, r) => ([noJob], r)
+  | (some b, r) => (b, r)
+
+/-- `UploadMemFileInChunks`: `for start := 0; start <= FileSize; start += chunkSize`:
+    the list of chunk start offsets (fuel = size + 1 iterations at most, chunk > 0). -/
 def chunkStarts (chunk : Nat) (size : Nat) : Nat → Nat → List Nat
   | 0, _ => []
   | fuel + 1, start => if start ≤ size then start :: chunkStarts chunk size fuel (start + chunk) else []
 
+/-- (start, length) of every chunk: `end = min (start + chunk) size` -/
+def chunkRanges (chunk : Nat) (size : Nat) : List (Nat × Nat) :=
+  (chunkStarts chunk size (size + 1) 0).map fun s => (s, min chunk (size - s))
+
 def memFileChunks (chunk : Nat) (file : Bytes) : List Bytes :=
-  (chunkStarts chunk file.length (file.length + 1) 0).map fun s => (file.drop s).take chunk
+  (chunkRanges chunk file.length).map fun (s, n) => (file.drop s).take n
 
 def memFileJobs (chunk : Nat) (fileId : Nat) (file : Bytes) (reqIds : List Nat) : List Job :=
   (memFileChunks chunk file).zipIdx.map fun (c, i) =>
